@@ -27,7 +27,14 @@ SG = ["_GET", "_POST", "_COOKIE", "_SERVER", "_REQUEST", "_REQUESTP", "_REQUESTC
 PRIV = ["rquery", "rheader", "local", "arr", "obj", "clo", "loop"]
 
 
-def coq_prog(segs, mw=0):
+def coq_prog(segs, mw=0, mwsg=False):
+    if mwsg:
+        # the outermost middleware parks at a gate and then reads $_GET before $next: one more segment in front
+        return coq_prog([["_GET"]] + [list(x) for x in segs], mw)
+    return _coq_prog(segs, mw)
+
+
+def _coq_prog(segs, mw=0):
     # the handler sets status and the X-Id header from locals after its last read: two more private reads;
     # each middleware in front of it sets a header from the request object before $next and writes to the body
     # after it: two more request-object reads per middleware
@@ -47,8 +54,8 @@ def owner(v):
     return int(v) if v.isdigit() else None
 
 
-def observed(segs, resp, mw=0):
-    vals = []
+def observed(segs, resp, mw=0, mwsg=False):
+    vals = [owner(resp.get("mwg"))] if mwsg else []
     for k, seg in enumerate(segs):
         for j, _ in enumerate(seg):
             vals.append(owner(resp["fields"].get("s%dr%d" % (k, j))))
@@ -65,8 +72,8 @@ def coq_obs(vals):
     return coq_list("None" if v is None else "(Some %d)" % v for v in vals)
 
 
-def kinds_of(segs, mw=0):
-    return [x for s in segs for x in s] + ["status", "header"] + [k for j in range(mw) for k in ("mw-header", "mw-body")]
+def kinds_of(segs, mw=0, mwsg=False):
+    return (["_GET"] if mwsg else []) + [x for s in segs for x in s] + ["status", "header"] + [k for j in range(mw) for k in ("mw-header", "mw-body")]
 
 
 def contiguous(order, i):
@@ -75,13 +82,13 @@ def contiguous(order, i):
     return bool(pos) and pos[-1] - pos[0] + 1 == len(pos)
 
 
-def foreign_keys(segs, i, vals, window=False, mw=0):
+def foreign_keys(segs, i, vals, window=False, mw=0, mwsg=False):
     """for request i (1-based): (kind, shape) of every read that returned foreign data;
     shape = first-read-foreign | changed-between-reads (the same superglobal answered with the request's own
     data earlier in this request)"""
     res = []
     seen_own = set()
-    for kind, v in zip(kinds_of(segs, mw), vals):
+    for kind, v in zip(kinds_of(segs, mw, mwsg), vals):
         g = GLOBAL_OF.get(kind)
         if v == i:
             if g:
@@ -128,6 +135,14 @@ def gated_cases(rng, tier):
                 cases.append({"segs": prog, "nreq": 2, "schedule": list(sch), "route": "mux", "mw": mw, "group": group, "warmup": True, "gen": "middleware-2x2"})
             for sch in ([0, 0, 1, 1, 1, 2, 2, 2, 0], [0, 1, 2, 2, 1, 0, 0, 1, 2], [2, 2, 0, 0, 0, 1, 1, 2, 1]):
                 cases.append({"segs": prog, "nreq": 3, "schedule": sch, "route": "mux", "mw": mw, "group": group, "warmup": True, "gen": "middleware-parked"})
+    # a middleware that reads $_GET BEFORE $next (after a gate): serial orders (must be clean: the reset happens at the
+    # entry of the outermost layer) and every interleaving of two requests (stages: entry, mw read + handler segment 1, ...)
+    for mw in (1, 2):
+        prog = [["_GET", "local"], ["_GET"]]
+        for order in itertools.permutations(range(3)):
+            cases.append({"segs": prog, "nreq": 3, "schedule": [i for i in order for _ in range(4)], "route": "mux", "mw": mw, "mwsg": True, "warmup": True, "gen": "middleware-sg-serial"})
+        for sch in interleavings([4, 4]):
+            cases.append({"segs": prog, "nreq": 2, "schedule": list(sch), "route": "mux", "mw": mw, "mwsg": True, "warmup": mw == 1, "gen": "middleware-sg-2x3"})
     # serial schedules in every order (must be clean)
     prog = [["_GET", "_POST", "_COOKIE"], ["_SERVER", "_REQUEST", "_REQUESTP", "_REQUESTC", "local"]]
     for order in itertools.permutations(range(3)):
@@ -233,18 +248,18 @@ def main(ck):
         if "err" in o or any(r.get("panic") for r in o["resps"]):
             ck.violation("impl-error:gated", {"case": c, "impl_out": o})
             continue
-        obs = [observed(c["segs"], r, c.get("mw", 0)) for r in o["resps"]]
+        obs = [observed(c["segs"], r, c.get("mw", 0), c.get("mwsg", False)) for r in o["resps"]]
         c["_obs"] = obs
-        if c.get("warmup") and o.get("warmup") and any(v != 99 for v in observed(c["segs"], o["warmup"], c.get("mw", 0))):
+        if c.get("warmup") and o.get("warmup") and any(v != 99 for v in observed(c["segs"], o["warmup"], c.get("mw", 0), c.get("mwsg", False))):
             ck.violation("private:warmup-response", {"case": c, "impl_out": o["warmup"], "clause": "a request served alone gets its own response"})
-        terms.append("(%s, %d, %s, %s)" % (coq_prog(c["segs"], c.get("mw", 0)), c["nreq"], coq_list(str(x) for x in o["order"]),
+        terms.append("(%s, %d, %s, %s)" % (coq_prog(c["segs"], c.get("mw", 0), c.get("mwsg", False)), c["nreq"], coq_list(str(x) for x in o["order"]),
                                             coq_list(coq_obs(v) for v in obs)))
         idx.append(i)
     bad = ck.eval_cases("gcases", HEADER, terms, "check_case", shard=200)
     interfering = 0
     for j, cls in sorted(bad.items(), key=lambda kv: len(gcases[idx[kv[0]]]["schedule"])):
         c, o = gcases[idx[j]], gouts[idx[j]]
-        rep = {"case": {k: c[k] for k in ("segs", "nreq", "schedule", "route", "mw", "group", "warmup") if k in c}, "executed_order": o["order"], "impl_out": o["resps"], "clauses": cls}
+        rep = {"case": {k: c[k] for k in ("segs", "nreq", "schedule", "route", "mw", "mwsg", "group", "warmup") if k in c}, "executed_order": o["order"], "impl_out": o["resps"], "clauses": cls}
         if 1 in cls:
             ck.broken.append("correspondence:C11.gated")
             ck.violation("tie:gated", dict(rep, clause="model vs implementation (tie)"))
@@ -252,7 +267,7 @@ def main(ck):
             interfering += 1
             keys = set()
             for ri, vals in enumerate(c["_obs"]):
-                for kind, name, shape in foreign_keys(c["segs"], ri + 1, vals, contiguous(o["order"], ri), c.get("mw", 0)):
+                for kind, name, shape in foreign_keys(c["segs"], ri + 1, vals, contiguous(o["order"], ri), c.get("mw", 0), c.get("mwsg", False)):
                     keys.add("private:%s" % name if kind == "private" else "sg:%s:%s" % (name, shape))
             for k in sorted(keys):
                 ck.violation(k, dict(rep, clause="private_state_isolated" if k.startswith("private") else "superglobals_isolated (refuted: overlapping requests)"))
@@ -310,6 +325,44 @@ def main(ck):
     ck.cov["fine_cases"] = len(fcases)
     ck.cov["fine_cases_with_crash"] = crashes
 
+    # ---- (i'') process-wide output buffering (std/php/core ob_start: ONE stack for the whole process): a handler
+    # that opens a buffer in one stage and closes it in the next.  Not in the Coq model: the expectation is a
+    # push/pop simulation here, the property (the closed buffer holds the request's own output) is checked directly.
+    ocases = []
+    if not ck.replay:
+        oprog = [["ob_open"], ["ob_close", "local"]]
+        for sch in interleavings([3, 3]):
+            ocases.append({"segs": oprog, "nreq": 2, "schedule": list(sch), "route": "handler", "gen": "ob"})
+        for sch in ([0, 1, 2, 0, 1, 2, 0, 1, 2], [0, 0, 1, 1, 2, 2, 2, 1, 0], [2, 2, 2, 0, 0, 0, 1, 1, 1]):
+            ocases.append({"segs": oprog, "nreq": 3, "schedule": sch, "route": "mux", "mw": 1, "gen": "ob"})
+    oouts, rc, err = run([binary, "gated"], ocases) if ocases else ([], 0, "")
+    ob_foreign = 0
+    for c, o in zip(ocases, oouts):
+        if "err" in o or any(r.get("panic") for r in o["resps"]):
+            ck.violation("impl-error:ob", {"case": c, "impl_out": o})
+            continue
+        stack, stage, expect = [], [0] * c["nreq"], {}
+        for i in o["order"]:
+            stage[i] += 1
+            if stage[i] == 2:
+                stack.append(i + 1)
+            elif stage[i] == 3:
+                expect[i] = stack.pop() if stack else None
+        for i, r in enumerate(o["resps"]):
+            got = owner(r["fields"].get("s1r0"))
+            rep = {"case": {k: c[k] for k in ("segs", "nreq", "schedule", "route")}, "executed_order": o["order"], "impl_out": o["resps"]}
+            if got != expect.get(i):
+                ck.broken.append("correspondence:C11.ob")
+                ck.violation("tie:ob", dict(rep, clause="output buffer stack simulation vs implementation"))
+            if got != i + 1:
+                ob_foreign += 1
+                ck.violation("ob:foreign-buffer:%s" % ("exclusive-window" if contiguous(o["order"], i) else "overlap"),
+                             dict(rep, clause="the body a handler produces equals what it produces alone (ob_get_clean returned another request's output)"))
+            if owner(r["fields"].get("s1r1")) != i + 1 or r.get("status") != 200 + i + 1:
+                ck.violation("private:ob-case", dict(rep, clause="private_state_isolated"))
+    ck.cov["ob_cases"] = len(ocases)
+    ck.cov["ob_cases_foreign_reads"] = ob_foreign
+
     # ---- (ii) parallel load under the race detector
     louts, rc, err = run([racebin, "load"], lcases, timeout=1500)
     lterms, lidx = [], []
@@ -356,11 +409,12 @@ def main(ck):
             key = "race:static-locals-lazy-init"
         elif "node.(*NewExpression).resolveClass" in pair or "node.(*NewClassGenerated).resolveClass" in pair:
             key = "race:new-expression-class-cache"
-        elif any(f in pair for f in SG_FRAMES) or pair.startswith("data.(*ObjectValue)") or pair.startswith("data.(*OrderedMap)"):
-            # the shared cache object itself (ObjectValue / its OrderedMap) is what two requests touch
+        elif any(f in pair for f in SG_FRAMES) or pair.endswith("[sg]"):
+            # one of the two stacks passes through ResetSuperglobals / a *Variable.GetValue: the package-level cache
+            # variable or the cache object it points to (a race on any OTHER shared object gets its own key)
             key = "race:superglobal-caches"
         else:
-            key = "race:" + pair.replace(" ", "")
+            key = "race:" + pair.replace(" [sg]", "").replace(" ", "")
         ck.violation(key, {"race": pair, "reports": n, "clause": "data race between concurrently served requests (-race)"})
 
     # ---- coverage
